@@ -91,6 +91,9 @@ class Machine(object):
                 m = re.match(r"^\.(word|long|4byte)\s+(.*)$", line)
                 if m:
                     self.items.append(("w", m.group(2).strip(), None))
+                m = re.match(r"^\.(hword|short|2byte|byte)\s+(.*)$", line)
+                if m:
+                    self.items.append(("h", m.group(2).strip(), None))      # a table entry: one slot of the model, whatever its real size
                 continue
             parts = line.split(None, 1)
             mn = parts[0].lower()
@@ -160,6 +163,9 @@ class Machine(object):
         m = re.match(r"^([.\w$]+)\s*-\s*([.\w$]+)$", expr)
         if m:
             return (self.label_addr(m.group(1)) - self.label_addr(m.group(2))) & self.MASK
+        m = re.match(r"^\(\s*([.\w$]+)\s*-\s*([.\w$]+)\s*\)\s*/\s*(\d+)$", expr)
+        if m:
+            return ((self.label_addr(m.group(1)) - self.label_addr(m.group(2))) // int(m.group(3))) & self.MASK
         return self.imm(expr)
 
     def imm(self, s):
@@ -516,6 +522,16 @@ class Arm(Machine):
             v = (a - b) & 0xFFFFFFFF
             self.setnz(v)
             self.c = 1 if a >= b else 0
+        elif mn in ("tbh", "tbb"):
+            # table branch: pc (the address just behind this instruction, where the table starts) plus twice the entry
+            mm = re.match(r"^\[\s*pc\s*,\s*(\w+)\s*(?:,\s*lsl\s*#1\s*)?\]$", ",".join(o).strip().lower())
+            if not mm:
+                raise EmuError("table branch with a base other than pc")
+            idx = R[self.reg(mm.group(1))]
+            if here + 1 + idx >= len(self.items) or self.items[here + 1 + idx][0] != "h":
+                raise EmuError("table branch index %d runs past the table" % idx)
+            off = self.eval_expr(self.items[here + 1 + idx][1])
+            return self.jump_addr((self.addr_of(here) + 4 + 2 * off) & 0xFFFFFFFF)
         elif mn in ("tst", "teq"):
             a, b = self.rd(self.reg(o[0]), here), self.op2(o[1:], here)
             self.setnz((a & b if mn == "tst" else a ^ b) & 0xFFFFFFFF)
@@ -632,9 +648,12 @@ class A64(Machine):
         self.x[30] = RET
         self.x[0], self.x[1], self.x[2] = a0, a1 | (junk[3] & 0xFFFFFFFFFFFFFF00), a2    # upper bits of w1 are unspecified for a uint8_t argument
         self.saved = {i: self.x[i] for i in list(range(19, 30)) + [31]}
+        self.v = [((junk[(i + 5) % len(junk)] << 64) | junk[(i + 9) % len(junk)]) & ((1 << 128) - 1) for i in range(32)]
+        self.saved_d = {i: self.v[i] & ((1 << 64) - 1) for i in range(8, 16)}       # AAPCS64: the low halves of v8-v15 are callee-saved
 
     def abi_check(self):
-        return ["callee-saved register %s not restored" % ("sp" if i == 31 else "x%d" % i) for i, v in self.saved.items() if self.x[i] != v]
+        return (["callee-saved register %s not restored" % ("sp" if i == 31 else "x%d" % i) for i, v in self.saved.items() if self.x[i] != v] +
+                ["callee-saved register d%d (low half of v%d) not preserved" % (i, i) for i, v in self.saved_d.items() if self.v[i] & ((1 << 64) - 1) != v])
 
     def reg(self, s):
         s = s.strip().lower()
@@ -696,7 +715,30 @@ class A64(Machine):
             return base, m.group(1), (base + int(m.group(2), 0)) & ((1 << 64) - 1)
         return self.memaddr(s), None, None
 
+    def step_vec(self, mn, o):
+        d = self.vreg(o[0])
+        t = o[0].strip().lower()
+        if mn == "eor":
+            self.v[d] = self.v[self.vreg(o[1])] ^ self.v[self.vreg(o[2])]
+            return None
+        mm = re.match(r"^v\d+\.d\[(\d)\]$", t)
+        src = o[1].strip().lower()
+        if not mm or (src != "xzr" and not re.match(r"^x\d+$", src)):
+            raise EmuError("vector mov form not modelled")
+        val = 0 if src == "xzr" else self.get(src)[0]
+        lane = int(mm.group(1))
+        self.v[d] = (self.v[d] & ~(((1 << 64) - 1) << (64 * lane))) | (val << (64 * lane))
+        return None
+
+    def vreg(self, s):
+        m = re.match(r"^v(\d+)\.", s.strip().lower())
+        if not m or int(m.group(1)) > 31:
+            raise EmuError("bad vector register " + s)
+        return int(m.group(1))
+
     def step(self, mn, o, here):
+        if o and re.match(r"^v\d+\.", o[0].strip().lower()) and mn in ("eor", "mov"):
+            return self.step_vec(mn, o)
         if mn in ("eor", "and", "orr", "bic", "add", "sub", "eon", "orn"):
             a, b = self.get(o[1])
             v2 = self.op2(o[2:]) & ((1 << b) - 1)
@@ -734,6 +776,13 @@ class A64(Machine):
             v = self.op2(o[1:])
             _, b = self.reg(o[0])
             self.put(o[0], ~v if mn == "mvn" else v)
+        elif mn == "movi":
+            d = self.vreg(o[0])
+            b = self.imm(o[1]) & 0xFF if ".16b" in o[0].lower() or ".8b" in o[0].lower() else None
+            if b is None and self.imm(o[1]) != 0:
+                raise EmuError("movi form not modelled")
+            width = 8 if (".8b" in o[0].lower()) else 16
+            self.v[d] = int.from_bytes(bytes([b or 0]) * width, "little")
         elif mn in ("hint", "nop", "bti", "paciasp", "autiasp"):
             pass            # landing pads and pointer-authentication hints: no architectural effect on the values computed here
         elif mn == "cmp":
